@@ -250,7 +250,7 @@ def occupations(ck, rng, S, nmax):
 
 def run(ck):
     ck.rule = ("systems: crystal pool (chain, ladder, sc, fcc, bcc, hcp, 2-site chain, B2/chain with spectators, two mobile species) x "
-               "superlattice (diagonal and non-diagonal) x cluster cutoff/order x {KRA only, KRA + TS clusters} x {no vacancy, vacancy}; "
+               "(+ always: two-site chain, hcp, diamond, two-site cubic cell, whose jumps connect different basis sites) x superlattice (diagonal and non-diagonal) x cluster cutoff/order x {KRA only, KRA + TS clusters} x {no vacancy, vacancy}; "
                "integer values (even cluster values, integer KRA/TS) for the exact tiers, random floats for the float tier. "
                "Occupations: all 2^n when n <= 8 (quick) / 11 (thorough) free sites, else random at several fillings. Systems on which a "
                "cluster is wrapped onto itself (decided by the Coq checker inj_okb) are outside the domain: evaluated, counted, not judged. "
@@ -264,19 +264,37 @@ def run(ck):
     rng.shuffle(plan)
     maxocc = ck.n(256, 2048)
     items, meta = [], []
+    nforced = 0
     nsys, skipped = 0, {"wrapped-cluster(out of domain)": 0, "too-large": 0, "no-jumps": 0}
     budget = ck.n(26, 120)
     outdom_viol = 0
+    # crystals with several mobile sites per cell whose jumps connect DIFFERENT basis indices (the initial- and final-site
+    # halves of the barrier expansion then use different cluster lists): always part of the run, every variant
+    multi = [("chain2", (0.65, 2, 0.65), (4, 1, 1)), ("chain2", (1.1, 3, 0.65), (5, 1, 1)), ("hcp", (1.01, 2, 1.01), (2, 2, 2)),
+             ("diamond", (0.45, 2, 0.45), (2, 2, 2)), ("diamond", (0.72, 3, 0.45), [[-1, 1, 1], [1, -1, 1], [1, 1, -1]]),
+             ("cub2", (0.8, 2, 0.8), (2, 2, 2)), ("cub2", (1.01, 3, 0.8), (2, 2, 2)), ("hcp", (1.01, 3, 1.01), (2, 2, 1))]
+    if not ck.quick:
+        multi += [("hcp", (1.01, 2, 1.01), (3, 3, 1)), ("hcp", (1.01, 3, 1.01), (2, 2, 2)), ("diamond", (0.72, 3, 0.45), (2, 2, 2)),
+                  ("cub2", (1.01, 3, 0.8), (3, 2, 2)), ("chain2", (1.1, 3, 0.65), (8, 1, 1)), ("diamond", (0.45, 2, 0.45), (3, 2, 2))]
+    jobs = []
+    for k, (name, setup, sup) in enumerate(multi):
+        jobs.append((name, setup, sup, False, True, True))
+        jobs.append((name, setup, sup, True, True, True))
+        jobs.append((name, setup, sup, bool(k % 2), False, True))
+    nmulti = len(jobs)
     for name, setup, sup in plan:
-        if nsys >= budget: break
-        vac = rng.random() < 0.5
-        ts = rng.random() < 0.6
+        jobs.append((name, setup, sup, rng.random() < 0.5, rng.random() < 0.6, False))
+    for name, setup, sup, vac, ts, forced in jobs:
+        if not forced and nsys >= budget: break
         S = mcsys.build(rng, name, setup, sup, vacancy=vac, jumps=True, ts=ts)
         if S is None: skipped["no-jumps"] += 1; continue
-        if len(S.MC.interactvalue) > ck.n(2500, 7000): skipped["too-large"] += 1; continue
-        nsys += 1
-        occs, exh = occupations(ck, rng, S, maxocc if len(S.MC.interactvalue) < 1200 else ck.n(24, 200))
-        kind = "%s:%s%s%s" % ("exhaustive" if exh else "random", "vac" if vac else "novac", "+ts" if len(S.TSclusters) else "", "")
+        if len(S.MC.interactvalue) > (ck.n(5000, 9000) if forced else ck.n(2500, 7000)): skipped["too-large"] += 1; continue
+        if forced: nforced += 1
+        else: nsys += 1
+        nint = len(S.MC.interactvalue)
+        occs, exh = occupations(ck, rng, S, maxocc if nint < 1200 else (ck.n(24, 200) if nint < 3000 else ck.n(8, 48)))
+        kind = "%s:%s%s%s" % ("exhaustive" if exh else "random", "vac" if vac else "novac", "+ts" if len(S.TSclusters) else "",
+                              "+multisite" if S.sup.Nmobile > 1 else "")
         viol, cache = None, {}
         try:
             if vac: _, cache = db_vac(ck, S, occs, True, kind)
@@ -311,7 +329,7 @@ def run(ck):
     nmodel = 0
     for (S, viol, ncase, exh), (indom, code) in zip(meta, res):
         nmodel += ncase
-        ck.case(key=("model", S.label, ncase), nontrivial=True, kind="model:" + ("in-domain" if indom else "wrapped"))
+        ck.case(key=("model", S.label, ncase), nontrivial=True, kind="model:" + ("in-domain" if indom else "wrapped") + ("+multisite" if S.sup.Nmobile > 1 else ""))
         if code != 0:
             what = {1: "geometry sanity (translation representatives / site indices of the jumps) fails", 2: "E() differs from the model",
                     3: "a transitions() barrier differs from the model", 4: "unknown jump"}.get(code, str(code))
@@ -332,8 +350,9 @@ def run(ck):
     for name, setup, sup in plan[::-1]:
         if nfl >= ck.n(6, 30): break
         # stay inside the domain: every supercell dimension well above the cluster extent
+        if name in ("hcp", "diamond", "cub2") and sup != (2, 2, 2): continue
         if name in ("chain", "chain2", "chainspec", "chain2chem") and (sup[0] if isinstance(sup, tuple) else 0) < 5: continue
-        if name not in ("chain", "chain2", "chainspec", "chain2chem") and not (isinstance(sup, tuple) and min(sup) >= 3): continue
+        if name not in ("chain", "chain2", "chainspec", "chain2chem", "hcp", "diamond", "cub2") and not (isinstance(sup, tuple) and min(sup) >= 3): continue
         vac = nfl % 2 == 1
         S = mcsys.build(rng, name, setup, sup, vacancy=vac, jumps=True, ts=True, vals="float", kra="float")
         if S is None or len(S.MC.interactvalue) > ck.n(2500, 7000): continue
@@ -345,6 +364,7 @@ def run(ck):
             ck.violation("%s [%s] (float values)" % (v.what, S.label), dict(sysinfo(S), **v.detail), key=v.key)
         nfl += 1
     ck.extra["systems"] = nsys
+    ck.extra["multisite_systems_always_run"] = nforced
     ck.extra["float_systems"] = nfl
     ck.extra["skipped"] = skipped
     ck.extra["out_of_domain_systems_violating"] = outdom_viol
